@@ -134,16 +134,17 @@ CHECKS = {
         rule=("whole core (real task/environment managers, scheduler, gRPC server) against the simulated Mesos master/executors; rapid-generated "
               "workflow shapes (0-6 task roles on 1-3 hosts, critical/non-critical, basic/direct/fairmq) with a per-task deployment outcome (active, "
               "launch fails, never reports, no matching agent) and, for CONFIGURE/START/STOP/RESET along a legal walk of up to 6 transitions, a "
-              "per-task outcome (ok, error reply with state=source, error reply with state=ERROR, undeliverable MESSAGE; slow shard: silent, dies). "
+              "per-task outcome (ok, error reply with state=source, error reply with state=ERROR, undeliverable MESSAGE; slow shard: silent, dies), "
+              "in a quarter of the rounds as a correlated fault (every task of one host fails, all others are fine). "
               "Oracle: success iff every critical task is ok; on failure the destination is never reported (replies, GetEnvironments polled "
               "every 15 ms, forwarded events) and the environment ends in ERROR; commands carry the right event and go only to active tasks. "
               "Non-trivial: >=1 non-ok outcome, nothing to command, or mixed criticality. Distinct = distinct (shape, outcome matrix) digests."),
         assumptions=["Mesos master, agents and executors are simulated from the scheduler HTTP API as the core uses it",
                      "silent / dying tasks cost the compiled-in 90-120 s command timeout and are sampled sparsely in a dedicated slow shard"],
         quick=[R("^(TestFixed|TestCanary.*)$", 1, 1, 400), R("^TestTransitions$", 14, 10, 500, shrinktime="60s"),
-               R("^TestTransitions$", 1, 2, 600, env={"VERIF_C02_SLOW": "1"}, shrinktime="1s")],
+               R("^TestTransitions$", 1, 2, 600, env={"VERIF_C02_SLOW": "1"}, shrinktime="1s"), R("^TestFixedSlow$", 1, 1, 600)],
         thorough=[R("^(TestFixed|TestCanary.*)$", 1, 1, 400), R("^TestTransitions$", 300, 14, 3000, shrinktime="120s"),
-                  R("^TestTransitions$", 8, 2, 3000, env={"VERIF_C02_SLOW": "1"}, shrinktime="1s")],
+                  R("^TestTransitions$", 8, 2, 3000, env={"VERIF_C02_SLOW": "1"}, shrinktime="1s"), R("^TestFixedSlow$", 1, 1, 600)],
         floors={"has-fault": ("TestTransitions", 0.5)},
     ),
     "C01": dict(
